@@ -135,6 +135,12 @@ def enum_specs(level):
     # a sign in front of an octal literal as the whole value
     for e in (["-010", None], ["+017", None, "@0 - 1"], ["-07"], ["1", "-010", None], ["-00", None]):
         specs.append(e)
+    # the ends of the int range and their neighbours (an enumeration without a fixed type holds int values): as a literal, as the
+    # member an implicit successor counts on from, and inside an expression
+    for e in (["2147483647"], ["-2147483647"], ["-2147483647", None], ["2147483646", None], ["-2147483647 - 1", None], ["-2147483647 - 1", None, None],
+              ["-2147483646", "@0 - 1"], ["1", "-2147483647", "@1 + 1"], ["2147483647", "-@0"], ["2147483647", "-@0", None], ["-2147483646", "@0 - 1", "@1 - 1"],
+              ["65535", "@0 * 32768"], ["-32768", "@0 * 65535"], ["32767", None], ["-32768", None], ["255", None], ["-128", None], ["-127", None]):
+        specs.append(e)
     # a signed operand in the middle of a chain of three: the grouping of the chain decides what the sign's operand is
     for o1 in OPS:
         for sg in ("-", "+"):
@@ -195,8 +201,8 @@ def build_library(specs, scope, scoped, base_index):
             vals = model_values(sp2, names)
         except ZeroDivisionError:
             continue
-        if any(abs(v) > 2 ** 30 for v in vals):
-            continue
+        if any(v > 2 ** 31 - 1 or v < -2 ** 31 for v in vals):
+            continue  # not an int enumeration any more
         text = "enum %s%s { %s }" % ("class " if scoped else "", ename, ", ".join(body))
         decls.append({"decl": text})
         cxx.append(text + ";")
